@@ -289,7 +289,13 @@ class Run:
                     self.scopes[i].cancel()
                 self.ev("issued", i)
                 try:
-                    v = await to_thread.run_sync(self.fn, i, abandon_on_cancel=spec["ab"], limiter=self.lim)
+                    if spec.get("nest"):
+                        # the scope that gets cancelled is an ancestor of the caller's innermost scope
+                        with CancelScope():
+                            v = await to_thread.run_sync(self.fn, i, abandon_on_cancel=spec["ab"],
+                                                         limiter=self.lim)
+                    else:
+                        v = await to_thread.run_sync(self.fn, i, abandon_on_cancel=spec["ab"], limiter=self.lim)
                     out = ("v", v)
                 except BaseException as e:
                     out = ("e", e)
@@ -609,6 +615,11 @@ def oracle(r: Run) -> str | None:
                 return f"call {i}'s function does not see the caller's context variable: {cv!r}"
             if tid == r.loop_tid:
                 return f"call {i}'s function ran in the event loop thread"
+            if i in cancel_seq and cancel_seq[i] < seq and not case["calls"][i]["pre"]:
+                # (the settle step before the cancellation guarantees that the call was either at its
+                # gate - entered - or still queued for a token)
+                return (f"call {i} was cancelled while it was still waiting for a limiter token, yet its "
+                        f"function was started afterwards")
             # worker reuse: most recently idle worker first, a new thread only if none is idle
             if tid in idle_stack:
                 if idle_stack[-1] != tid:
@@ -755,7 +766,8 @@ def gen_steps(rng: random.Random, n: int, order: list[int], calls: list[dict], p
 def gen_calls(rng: random.Random, n: int) -> list[dict]:
     calls = []
     for _ in range(n):
-        calls.append({"kind": rng.choice(KINDS), "ab": rng.random() < 0.4, "pre": rng.random() < 0.06})
+        calls.append({"kind": rng.choice(KINDS), "ab": rng.random() < 0.4, "pre": rng.random() < 0.06,
+                      "nest": rng.random() < 0.4})
     return calls
 
 
